@@ -81,11 +81,9 @@ theorem maxTakenGlobal_substSym (ν : String → Pre) (p : Program) : maxTakenGl
 theorem chooseFreshGlobals_substSym (ν : String → Pre) (p : Program) :
     chooseFreshGlobals (p.substSym ν) = chooseFreshGlobals p := by
   unfold chooseFreshGlobals
-  rw [maxHeadArity_substSym, maxTakenGlobal_substSym]
+  rw [maxHeadArity_substSym, maxTakenGlobal_substSym, Program.vars_substSym]
 
-theorem globalsPanic_substSym (ν : String → Pre) (p : Program) : globalsPanic (p.substSym ν) = globalsPanic p := by
-  unfold globalsPanic
-  rw [maxHeadArity_substSym, maxTakenGlobal_substSym]
+theorem globalsPanic_substSym (ν : String → Pre) (p : Program) : globalsPanic (p.substSym ν) = globalsPanic p := rfl
 
 /-! ## tau* -/
 
